@@ -6,6 +6,7 @@ import Drv.Proto
 import Drv.Meta
 import Drv.Wire
 import Drv.Filter
+import Drv.Follow
 open Lean Drv
 
 /-- which repairs (`fix:` commits) the model follows; the driver always runs the repaired model,
@@ -26,6 +27,8 @@ def handle (j : Json) : Except String Json := do
   | "frames" => hFrames j
   | "filter" => hFilter j
   | "patmatch" => hPatMatch j
+  | "followlinks" => hFollow j
+  | "dedupe" => hDedupe j
   | "metasync" => hMetaSync j
   | "sendproto" => hSendProto j
   | "recvproto" => hRecvProto j
